@@ -150,7 +150,8 @@ def run_case(case, ctx):
             if N >= 4:
                 B = int(rng.integers(3, min(N, 7) + 1))
                 rows = rng.choice(N, size=B, replace=False)
-                batch = torch.tensor(V[rows], dtype=torch.double)
+                batch, mform = gen.memory_form(torch.tensor(V[rows], dtype=torch.double), rng)
+                ctx.seen("batch_memory_forms", mform)
                 keep = batch.clone()
                 out = ctx.lib("SWAP.apply(batch)", ob.apply, st, batch, tags=tags)
                 ctx.count("pairing_checks")
